@@ -12,44 +12,7 @@ global size_of usize == 8;
 
 //@INCLUDE prelude/std_extra.rs
 
-// ------------------------------------------------------------------ std items vstd lacks (ASSUMED: an RwLock is a lock)
-#[verifier::external_type_specification]
-#[verifier::external_body]
-#[verifier::reject_recursive_types(T)]
-pub struct ExRwLock<T: ?Sized>(RwLock<T>);
-#[verifier::external_type_specification]
-#[verifier::external_body]
-#[verifier::reject_recursive_types(T)]
-pub struct ExRwLockReadGuard<'a, T: ?Sized>(RwLockReadGuard<'a, T>);
-#[verifier::external_type_specification]
-#[verifier::external_body]
-#[verifier::reject_recursive_types(T)]
-pub struct ExRwLockWriteGuard<'a, T: ?Sized + 'a>(RwLockWriteGuard<'a, T>);
-#[verifier::external_type_specification]
-#[verifier::external_body]
-#[verifier::reject_recursive_types(T)]
-pub struct ExPoisonError<T>(PoisonError<T>);
-
-// the content under a freshly acquired lock is ARBITRARY: other threads may have inserted or deleted anything since the last
-// release (the rely of a lock-protected map). No ensures about it.
-pub assume_specification<'a, T: ?Sized>[ RwLock::<T>::read ](l: &'a RwLock<T>) -> (r: LockResult<RwLockReadGuard<'a, T>>);
-pub assume_specification<'a, T: ?Sized>[ RwLock::<T>::write ](l: &'a RwLock<T>) -> (r: LockResult<RwLockWriteGuard<'a, T>>);
-pub assume_specification<T, E, F: FnOnce(E) -> T>[ Result::<T, E>::unwrap_or_else ](r: Result<T, E>, f: F) -> (t: T)
-    requires r is Err ==> f.requires((r->Err_0,)),
-    ensures r is Ok ==> t == r->Ok_0, r is Err ==> f.ensures((r->Err_0,), t);
-pub assume_specification<T>[ PoisonError::<T>::into_inner ](e: PoisonError<T>) -> (t: T);
-pub assume_specification<T>[ std::mem::drop ](_0: T);
-
-/// the value a held guard gives access to
-pub uninterp spec fn rguarded<'a, 'b, T: ?Sized>(g: &'b RwLockReadGuard<'a, T>) -> &'b T;
-pub uninterp spec fn wguarded<'a, 'b, T: ?Sized>(g: &'b RwLockWriteGuard<'a, T>) -> &'b T;
-pub assume_specification<'a, 'b, T: ?Sized>[ <RwLockReadGuard<'a, T> as Deref>::deref ](g: &'b RwLockReadGuard<'a, T>) -> (r: &'b T)
-    ensures r == rguarded(g);
-pub assume_specification<'a, 'b, T: ?Sized>[ <RwLockWriteGuard<'a, T> as Deref>::deref ](g: &'b RwLockWriteGuard<'a, T>) -> (r: &'b T)
-    ensures r == wguarded(g);
-pub assume_specification<'a, 'b, T: ?Sized>[ <RwLockWriteGuard<'a, T> as DerefMut>::deref_mut ](g: &'b mut RwLockWriteGuard<'a, T>) -> (r: &'b mut T)
-    ensures &*r == wguarded(old(g)), wguarded(final(g)) == &*final(r);
-
+//@INCLUDE prelude/rwlock.rs
 
 // R12: `V.get_unchecked(I)` -> `shim_get_unchecked(&V, I)` (the method is generic over SliceIndex, no assume_specification possible).
 // The SAFETY comment of the caller becomes a proof obligation: the index must be in bounds.
